@@ -48,10 +48,10 @@ def make_unit(u):
 _CUSTOM = {}
 
 
-def custom_value(label, locs):
+def custom_value(label, locs, signed=False):
     """a MemoryValue declared the way a user of the library would: own bank object (same bank number), locations in the
     given order -- they need not be contiguous or ascending"""
-    key = (label, tuple(locs))
+    key = (label, tuple(locs), bool(signed))
     if key not in _CUSTOM:
         from dali.memory.location import MemoryBank, MemoryLocation, MemoryType, NumericValue
         t = core.spec_tables()
@@ -60,8 +60,11 @@ def custom_value(label, locs):
         tmap = {"R": MemoryType.ROM, "r": MemoryType.RAM_RO, "W": MemoryType.RAM_RW, "n": MemoryType.NVM_RO,
                 "N": MemoryType.NVM_RW, "L": MemoryType.NVM_RW_L}
         bank = MemoryBank(bp["number"], 0xFE, has_lock=bool(bp["lock"]), has_latch=bool(bp["latch"]))
-        cls = type("Custom_%s_%s" % (label, "_".join(map(str, locs))), (NumericValue,), {
-            "bank": bank, "locations": tuple(MemoryLocation(address=l, type_=tmap[ty.get(l, "R")]) for l in locs)})
+        attrs = {"bank": bank, "locations": tuple(MemoryLocation(address=l, type_=tmap[ty.get(l, "R")]) for l in locs)}
+        if signed:
+            # a signed quantity with the MASK / TMASK patterns of signed types (0x7f..ff, 0x7f..fe)
+            attrs.update({"signed": True, "mask_supported": True, "tmask_supported": True})
+        cls = type("Custom_%s_%s%s" % (label, "_".join(map(str, locs)), "_s" if signed else ""), (NumericValue,), attrs)
         _CUSTOM[key] = cls
     return _CUSTOM[key]
 
@@ -100,15 +103,35 @@ def run_case(case):
     cells = []
     rec = {"seq": case["seq"], "unit": u, "value": case.get("value", ""), "latch": case.get("latch", 0),
            "wdata": case.get("wdata", []), "ignore": case.get("ignore", 0), "legal": 1,
-           "force": case.get("force", 0), "locs": list(case.get("locs", []))}
+           "force": case.get("force", 0), "locs": list(case.get("locs", [])), "lit": case.get("lit", ""),
+           "signed": 1 if case.get("signed") else 0, "num": case.get("num", 0)}
     if case["seq"] == "read":
         v = VALUES[(label, case["value"])]
         gen = v.read_raw(addr) if case.get("raw_only") else v.read(addr)
+    elif case["seq"] == "read_all" and "late" in case:
+        # a bank object of the user's own (same number and layout); part of its values are declared only after the bank
+        # has been read once: the second read reports all of them
+        from dali.memory.location import MemoryBank
+        orig = bank_obj(label)
+        nb = MemoryBank(orig.address, orig.LastAddress.locations[0].default, has_lock=orig.has_lock, has_latch=orig.has_latch)
+        vals = [mv for mv in orig.values if mv is not orig.LastAddress and mv is not orig.LockByte]
+        for mv in vals[:case["late"]]:
+            type(mv.__name__, (mv,), {"bank": nb})
+        first = make_unit(u)
+        drive_multi(nb.read_all(addr, use_latch=bool(case.get("latch", 1))),
+                    lambda cmd: (lambda r_: (r_, []))(first.step(len(cmd.frame), cmd.frame.as_integer)), 700)
+        for mv in vals[case["late"]:]:
+            type(mv.__name__, (mv,), {"bank": nb})
+        gen = nb.read_all(addr, use_latch=bool(case.get("latch", 1)))
     elif case["seq"] == "read_all":
         gen = bank_obj(label).read_all(addr, use_latch=bool(case.get("latch", 1)))
     else:
-        v = custom_value(label, case["locs"]) if case.get("locs") else VALUES[(label, case["value"])]
-        if case.get("how") == "text":
+        v = custom_value(label, case["locs"], case.get("signed")) if case.get("locs") else VALUES[(label, case["value"])]
+        if case.get("lit"):
+            # the value-level write: a number, or the MASK / TMASK literal (what is stored is for the judge to say)
+            gen = v.write(addr, case["num"] if case["lit"] == "num" else case["lit"],
+                          ignore_feedback=bool(case.get("ignore", 0)))
+        elif case.get("how") == "text":
             gen = v.write(addr, bytes(case["wdata"]).decode("ascii"), ignore_feedback=bool(case.get("ignore", 0)))
             if len(case["wdata"]) < len(v.locations):
                 rec["wdata"] = list(case["wdata"]) + [0]
